@@ -172,6 +172,130 @@ theorem inline_cell (t : Option String) (strings : List Txt) (ip cp : Option Str
   simp only
   rw [runCell_done _ (h3 _)]
 
+/-- The formula text of a cell (`worksheet_formula`) is the character data of its `<f>`, Text and CData
+    alike, whether the cached value `<v>…</v>` follows or not. -/
+theorem formula_text (fp vp cp : Option String) (fa : List (String × Txt)) (cs : List Chunk) (withV : Bool)
+    (vbody : List Ev) (hv : vbody.all (noClosing ⟨vp, "v"⟩) = true) (rest : List Ev) :
+    formulaText (.start ⟨fp, "f"⟩ fa :: chunksEvs cs ++ [.end_ ⟨fp, "f"⟩] ++
+        (if withV then .start ⟨vp, "v"⟩ [] :: vbody ++ [.end_ ⟨vp, "v"⟩] else []) ++ [.end_ ⟨cp, "c"⟩] ++ rest)
+      = .ok (chunksText cs, rest) := by
+  have step : ∀ {m m' : FmlaMode} {e : Ev} (r : List Ev), fmlaStep m e = .cont m' → runFmla m (e :: r) = runFmla m' r := by
+    intro m m' e r h; cases m <;> simp [runFmla, h]
+  have fin : ∀ {m : FmlaMode} {e : Ev} {v : Txt} (r : List Ev), fmlaStep m e = .done v → runFmla m (e :: r) = .ok (v, r) := by
+    intro m e v r h; cases m <;> simp [runFmla, h]
+  have hchunks : ∀ (cs : List Chunk) (acc : Txt) (r : List Ev),
+      runFmla (.inF ⟨fp, "f"⟩ acc none) (chunksEvs cs ++ r) = runFmla (.inF ⟨fp, "f"⟩ (acc ++ chunksText cs) none) r := by
+    intro cs
+    induction cs with
+    | nil => intro acc r; simp [chunksEvs, chunksText]
+    | cons k ks ih =>
+      intro acc r
+      have hk : fmlaStep (.inF ⟨fp, "f"⟩ acc none) k.ev = .cont (.inF ⟨fp, "f"⟩ (acc ++ k.txt) none) := by
+        cases k <;> simp [fmlaStep, Chunk.ev, Chunk.txt]
+      simp only [chunksEvs, List.map_cons, List.cons_append] at ih ⊢
+      rw [step _ hk, ih]
+      simp [chunksText, List.append_assoc]
+  have h1 : fmlaStep (.inC none) (.start ⟨fp, "f"⟩ fa) = .cont (.inF ⟨fp, "f"⟩ [] none) := by simp [fmlaStep]
+  have h2 : fmlaStep (.inF ⟨fp, "f"⟩ (chunksText cs) none) (.end_ ⟨fp, "f"⟩) = .cont (.inC (some (chunksText cs))) := by
+    simp [fmlaStep]
+  have h3 : fmlaStep (.inC (some (chunksText cs))) (.end_ ⟨cp, "c"⟩) = .done (chunksText cs) := by simp [fmlaStep]
+  simp only [formulaText, List.cons_append, List.append_assoc, List.nil_append]
+  rw [step _ h1, hchunks, List.nil_append, step _ h2]
+  cases withV with
+  | false =>
+    simp only [Bool.false_eq_true, if_false, List.nil_append]
+    rw [fin _ h3]
+  | true =>
+    have v1 : fmlaStep (.inC (some (chunksText cs))) (.start ⟨vp, "v"⟩ []) = .cont (.skip ⟨vp, "v"⟩ 0 (some (chunksText cs))) := by
+      simp [fmlaStep]
+    have v2 : ∀ (evs r : List Ev), evs.all (noClosing ⟨vp, "v"⟩) = true →
+        runFmla (.skip ⟨vp, "v"⟩ 0 (some (chunksText cs))) (evs ++ r) = runFmla (.skip ⟨vp, "v"⟩ 0 (some (chunksText cs))) r := by
+      intro evs r hh
+      induction evs with
+      | nil => rfl
+      | cons e es ih =>
+        simp only [List.all_cons, Bool.and_eq_true] at hh
+        have : fmlaStep (.skip ⟨vp, "v"⟩ 0 (some (chunksText cs))) e = .cont (.skip ⟨vp, "v"⟩ 0 (some (chunksText cs))) := by
+          have := hh.1
+          cases e <;> simp_all [fmlaStep, noClosing]
+        rw [List.cons_append, step _ this, ih hh.2]
+    have v3 : fmlaStep (.skip ⟨vp, "v"⟩ 0 (some (chunksText cs))) (.end_ ⟨vp, "v"⟩) = .cont (.inC (some (chunksText cs))) := by
+      simp [fmlaStep]
+    simp only [if_true, List.cons_append, List.append_assoc, List.nil_append]
+    rw [step _ v1, v2 _ _ hv, step _ v3, fin _ h3]
+
+/-! ## no reader panics or spins on any event list (the annotation loop of ods excepted: see `runOds`) -/
+
+/-- `read_string`, `read_shared_strings` and the cell loop return `Ok` or `Err` on every event list. -/
+theorem xlsx_readers_total (closing : Name) (t : Option String) (strings : List Txt) (evs : List Ev) :
+    ((∃ r, readString closing evs = .ok r) ∨ (∃ e, readString closing evs = .err e)) ∧
+    ((∃ r, readSharedStrings evs = .ok r) ∨ (∃ e, readSharedStrings evs = .err e)) ∧
+    ((∃ r, cellText t strings evs = .ok r) ∨ (∃ e, cellText t strings evs = .err e)) := by
+  have hsi : ∀ (evs : List Ev) (m : SiMode), (∃ r, runSi closing m evs = .ok r) ∨ (∃ e, runSi closing m evs = .err e) := by
+    intro evs
+    induction evs with
+    | nil => intro m; exact Or.inr ⟨_, rfl⟩
+    | cons e es ih =>
+      intro m
+      simp only [runSi]
+      cases hs : siStep closing m e with
+      | cont m' => exact ih m'
+      | done v => exact Or.inl ⟨_, rfl⟩
+      | fail x => exact Or.inr ⟨_, rfl⟩
+      | panic x => exact absurd hs (siStep_no_panic _ _ _ _)
+  have hsst : ∀ (evs : List Ev) (m : SstMode) (acc : List Txt), (∃ r, runSst m acc evs = .ok r) ∨ (∃ e, runSst m acc evs = .err e) := by
+    intro evs
+    induction evs with
+    | nil => intro m acc; cases m <;> exact Or.inr ⟨_, rfl⟩
+    | cons e es ih =>
+      intro m acc
+      cases m with
+      | top =>
+        cases e <;> simp only [runSst] <;> (try split) <;> first | exact ih _ _ | exact Or.inl ⟨_, rfl⟩
+      | inSi c m =>
+        simp only [runSst]
+        cases hs : siStep c m e with
+        | cont m' => exact ih _ _
+        | done v => exact ih _ _
+        | fail x => exact Or.inr ⟨_, rfl⟩
+        | panic x => exact absurd hs (siStep_no_panic _ _ _ _)
+  have hcell : ∀ (evs : List Ev) (m : CellMode), (∃ r, runCell t strings m evs = .ok r) ∨ (∃ e, runCell t strings m evs = .err e) := by
+    intro evs
+    induction evs with
+    | nil => intro m; exact Or.inr ⟨_, rfl⟩
+    | cons e es ih =>
+      intro m
+      simp only [runCell]
+      cases hs : cellStep t strings m e with
+      | cont m' => exact ih m'
+      | done v => exact Or.inl ⟨_, rfl⟩
+      | fail x => exact Or.inr ⟨_, rfl⟩
+      | panic x => exact absurd hs (cellStep_no_panic _ _ _ _ _)
+  exact ⟨hsi evs _, hsst evs _ _, hcell evs _⟩
+
+/-- The ods text loop never panics; it fails to return only inside an unclosed annotation (no `Eof` arm in
+    the skipping loop: the real reader spins forever there — a robustness finding of property C06). -/
+theorem ods_reader_no_panic (evs : List Ev) (x : String) : odsCellText evs ≠ .panic x := by
+  have hstep : ∀ (m : OdsMode) (e : Ev) (y : String), odsStep m e ≠ .panic y := by
+    intro m e y h
+    unfold odsStep at h
+    split at h
+    all_goals (try split at h)
+    all_goals (try split at h)
+    all_goals (try split at h)
+    all_goals (try split at h)
+    all_goals (try split at h)
+    all_goals cases h
+  have : ∀ (evs : List Ev) (m : OdsMode), runOds m evs ≠ .panic x := by
+    intro evs
+    induction evs with
+    | nil => intro m h; cases m <;> simp [runOds] at h
+    | cons e es ih =>
+      intro m h
+      cases m <;> simp only [runOds] at h <;>
+        (split at h <;> first | exact ih _ h | (cases h; done) | (rename_i hs; cases h; exact hstep _ _ _ hs))
+  exact this evs _
+
 /-! ## ods: string cells -/
 
 /-- The text of a string cell is the paragraphs' texts joined by `\n`; inside a paragraph literal character
